@@ -14,6 +14,7 @@ import (
 	"encoding/json"
 	"flag"
 	"fmt"
+	"github.com/cosmos/cosmos-sdk/telemetry"
 	"os"
 	"os/exec"
 	"path/filepath"
@@ -115,6 +116,14 @@ func firstDiff(a, b []string) int {
 }
 
 func worker(histories []string, shard, shards, bound int, deadline time.Time, outPath string) {
+	if os.Getenv("FXSEAM_TELEMETRY") != "" {
+		if _, err := telemetry.New(telemetry.Config{ServiceName: "fxseam", Enabled: true}); err != nil {
+			panic(err)
+		}
+		if !telemetry.IsTelemetryEnabled() {
+			panic("fxseam: telemetry could not be enabled")
+		}
+	}
 	wo := workerOut{Baselines: map[string]execResult{}}
 	job := 0
 	for _, h := range histories {
@@ -315,6 +324,10 @@ func main() {
 				gmp = "16"
 			}
 			cmd.Env = append(os.Environ(), "GOMAXPROCS="+gmp)
+			if s%4 >= 2 {
+				// half of the processes run as a node whose app.toml enables telemetry (a per-node setting)
+				cmd.Env = append(cmd.Env, "FXSEAM_TELEMETRY=1")
+			}
 			if ob, err := cmd.CombinedOutput(); err != nil {
 				errs[s] = fmt.Errorf("worker %d: %v\n%s", s, err, tail(string(ob), 3000))
 				return
@@ -477,7 +490,7 @@ func main() {
 		"baseline_tx_failed":            txFail,
 		"worker_processes":              shards,
 		"known_findings_reproduced":     nKnown,
-		"rule":                          "every history is executed through real FinalizeBlock+Commit on a fresh application per execution; baseline = sorted key order at every map range; then every other key order (all n! up to 4 keys) at every single visit (quick) and at every pair of visits (thorough), the same schedule twice, a clock one year later, and the baselines of 16 separate OS processes (GOMAXPROCS 1 and 16) are compared block by block on the marshalled ResponseFinalizeBlock (app hash, tx results incl. gas and events, block events, validator updates). states = executions, transitions = blocks executed",
+		"rule":                          "every history is executed through real FinalizeBlock+Commit on a fresh application per execution; baseline = sorted key order at every map range; then every other key order (all n! up to 4 keys) at every single visit (quick) and at every pair of visits (thorough), the same schedule twice, a clock one year later, and the baselines of 16 separate OS processes (GOMAXPROCS 1 and 16, telemetry disabled in half of them and enabled in the other half) are compared block by block on the marshalled ResponseFinalizeBlock (app hash, tx results incl. gas and events, block events, validator updates). states = executions, transitions = blocks executed",
 	}
 	ev := map[string]interface{}{
 		"property_id": "C17", "tier": *tier, "seed": 0, "level": "model_checking", "coverage": cov, "wall_s": time.Since(start).Seconds(), "violations": nViol,
